@@ -305,6 +305,41 @@ func c16Wire(w *explore.Worker, c c16Case, fail func(clause, detail string)) {
 		if !told {
 			fail("live-session-not-told-its-new-access", "")
 		}
+		// the account is renamed with the multi-account editor, then edited again under its new login: the
+		// live session still follows
+		rid := adm.Req(ref.TUpdateUser, ref.F(ref.FData, subFields(ref.F(ref.FData, obf("u")), ref.F(ref.FUserLogin, obf("u2")), ref.FS(ref.FUserName, "U"), ref.F(ref.FUserPassword, []byte{0}), ref.F(ref.FUserAccess, nb[:]))))
+		world.Quiet()
+		if r := adm.Reply(rid); r == nil || r.Err != 0 {
+			fail("rename-refused", fmt.Sprint(r))
+			return
+		}
+		nb2 := nb
+		for i := range nb2 {
+			nb2[i] ^= 0x5A
+		}
+		nb2 = ref.And(nb2, ref.DefinedMask)
+		cl.New()
+		sid = adm.Req(ref.TSetUser, ref.F(ref.FUserLogin, obf("u2")), ref.FS(ref.FUserName, "U"), ref.F(ref.FUserPassword, []byte{0}), ref.F(ref.FUserAccess, nb2[:]))
+		world.Quiet()
+		if r := adm.Reply(sid); r == nil || r.Err != 0 {
+			fail("set-user-after-rename-refused", fmt.Sprint(r))
+			return
+		}
+		told = false
+		for _, t := range cl.New() {
+			if t.Type == ref.TUserAccess {
+				told = true
+				a2, _ := t.Get(ref.FUserAccess)
+				var g2 [8]byte
+				copy(g2[:], a2)
+				if len(a2) != 8 || ref.And(g2, ref.DefinedMask) != nb2 {
+					fail("access-notification-after-rename-and-edit-differs-from-new-bitmap", fmt.Sprintf("live session was sent %x, the account now holds %s", a2, bitsString(nb2)))
+				}
+			}
+		}
+		if !told {
+			fail("live-session-not-told-its-new-access-after-rename", "")
+		}
 		w.Outcome("wire " + bitsString(b) + strings.Join(obs, ","))
 	})
 }
